@@ -958,6 +958,8 @@ def cond_eval(c: t.Tuple[t.Any, ...], x: t.Any) -> bool:
         return bool(x >= 0)
     if k == 'Finite':
         # the arithmetic predicate: every int (and Fraction) is finite, also one too large for a float
+        if isinstance(x, complex):
+            return math.isfinite(x.real) and math.isfinite(x.imag)
         return True if isinstance(x, (int, fractions.Fraction)) else math.isfinite(x)
     if k == 'Empty':
         return len(x) == 0
